@@ -262,6 +262,7 @@ def dict_get(ex, path, d, ca, node):
     k = ca.pos[0]
     dflt = ca.pos[1] if len(ca.pos) > 1 else NoneV()
     base = split_generic(d.cls)[0]
+    base = "dict" if base == "ddict" else base
     ke = k.e if base == "dict" else ref_of(k)
     has = z3.Select(path.sel(f"{base}.has", d.e), ke)
     v = z3.Select(path.sel(f"{base}.val", d.e), ke)
@@ -270,6 +271,7 @@ def dict_get(ex, path, d, ca, node):
 
 def dict_truthy(path, d):
     base = split_generic(d.cls)[0]
+    base = "dict" if base == "ddict" else base
     ks = Str if base == "dict" else Int
     k = z3.Const("k!dt", ks)
     return z3.Exists([k], z3.Select(path.sel(f"{base}.has", d.e), k))
@@ -277,6 +279,16 @@ def dict_truthy(path, d):
 
 ClassModel("dict", methods={"copy": dict_copy, "pop": dict_pop, "get": dict_get}, truthy_fn=dict_truthy)
 ClassModel("idict", methods={"copy": dict_copy, "get": dict_get}, truthy_fn=dict_truthy)
+ClassModel("ddict", methods={"get": dict_get}, truthy_fn=dict_truthy)
+
+
+def ctor_from_init(qualclass: str, clsname: str):
+    """Constructor = allocate + run the real __init__ body symbolically."""
+    def ctor(ex, path, ca, node):
+        obj = path.alloc(clsname, clsname.lower())
+        outs = ex.call_inline(path, f"{qualclass}.__init__", obj, ca, node)
+        return [(p, r if isinstance(r, Raise) else obj) for p, r in outs]
+    return ctor
 
 
 @model
@@ -638,3 +650,30 @@ def _as_completed(ex, path, ca, node):
 
 BUILTINS["asyncio.as_completed"] = _as_completed
 GLOBAL_NAMES["asyncio.as_completed"] = Py(("builtin", "asyncio.as_completed"))
+
+
+# --------------------------------------------------------------------------- str methods
+def _as_z3str(path, v):
+    if isinstance(v, S):
+        return v.e
+    if isinstance(v, O):
+        fn = getattr(class_model(v.cls), "as_str", None)
+        if fn is not None:
+            return fn(path, v)
+    raise Unsupported(f"not a string: {v}")
+
+
+def _str_startswith(ex, path, recv, ca, node):
+    return [(path, B(z3.PrefixOf(_as_z3str(path, ca.pos[0]), recv.e)))]
+
+
+def _str_endswith(ex, path, recv, ca, node):
+    return [(path, B(z3.SuffixOf(_as_z3str(path, ca.pos[0]), recv.e)))]
+
+
+def _str_strip(ex, path, recv, ca, node):
+    raise Unsupported("str.strip")
+
+
+STR_METHODS["startswith"] = _str_startswith
+STR_METHODS["endswith"] = _str_endswith
